@@ -26,7 +26,7 @@ let run line =
       (match Model.parse_rtr (unhex h) with
        | Model.Ok p ->
            let l = N.int_of_z (pdu_len p) in
-           let re = if l >= pdu_need p && l <= 1 lsl 20 then
+           let re = if l >= pdu_need p && l <= 4096 then
                (match Model.serialize_rtr p with Model.Ok b -> hx b | Model.Panic -> "PANIC" | _ -> "serr") else "skip" in
            "ok " ^ show_pdu p ^ " " ^ re
        | Model.Err _ -> "err" | Model.Panic -> "panic" | Model.OutOfFuel -> "fuel")
